@@ -233,6 +233,23 @@ theorem decode_highPrefix (b : UInt8) (r : Bytes) (hb : 128 ≤ b) : highPrefix 
   · rw [hd]; simp [highPrefix, h1, h2]
   · rw [hd]; simp [highPrefix, h1, h2, h3]
 
+theorem senBody_c8 (html copy : Bool) (b : UInt8) (r : Bytes) (h4 : senClass b = c8) :
+    senBody html 0 copy (b :: r) =
+      if (utf8Decode (b :: r)).1 = 0x2028 then esc2028 ++ senBody html ((utf8Decode (b :: r)).2 - 1) false r
+      else if (utf8Decode (b :: r)).1 = 0x2029 then esc2029 ++ senBody html ((utf8Decode (b :: r)).2 - 1) false r
+      else if (utf8Decode (b :: r)).1 = runeError then escFFFD ++ senBody html ((utf8Decode (b :: r)).2 - 1) false r
+      else b :: senBody html ((utf8Decode (b :: r)).2 - 1) true r := by
+  simp only [senBody]
+  simp [h4, c8, cO, c0, cX, cDot, cH]
+
+theorem senDenote_c8 (html copy : Bool) (b : UInt8) (r : Bytes) (h4 : senClass b = c8) :
+    senDenote html 0 copy (b :: r) =
+      if (utf8Decode (b :: r)).1 = 0x2028 then [0xE2, 0x80, 0xA8] ++ senDenote html ((utf8Decode (b :: r)).2 - 1) false r
+      else if (utf8Decode (b :: r)).1 = 0x2029 then [0xE2, 0x80, 0xA9] ++ senDenote html ((utf8Decode (b :: r)).2 - 1) false r
+      else if (utf8Decode (b :: r)).1 = runeError then fffd ++ senDenote html ((utf8Decode (b :: r)).2 - 1) false r
+      else b :: senDenote html ((utf8Decode (b :: r)).2 - 1) true r := by
+  simp only [senDenote, h4, ↓reduceIte]
+
 section body
 variable (cfg : Cfg) (hc : cfg.tokenizer = false)
 include hc
@@ -355,9 +372,9 @@ theorem body_run (html : Bool) : ∀ (s : Bytes) (skip : Nat) (copy : Bool) (st 
               have hcls : ¬ (senClass b = cO ∨ senClass b = c0 ∨ senClass b = cX) := h1
               by_cases r1 : (utf8Decode (b :: r)).1 = 0x2028
               · have e1 : senBody html 0 copy (b :: r) = esc2028 ++ senBody html ((utf8Decode (b :: r)).2 - 1) false r := by
-                  simp only [senBody]; simp [h4, r1, c8, cO, c0, cX, cDot, cH]
+                  rw [senBody_c8 html copy b r h4, if_pos r1]
                 have e2 : senDenote html 0 copy (b :: r) = [0xE2, 0x80, 0xA8] ++ senDenote html ((utf8Decode (b :: r)).2 - 1) false r := by
-                  simp only [senDenote, h4, r1, ↓reduceIte]
+                  rw [senDenote_c8 html copy b r h4, if_pos r1]
                 rw [e1, e2, List.append_assoc]
                 obtain ⟨ri1, rn1, p1, hu⟩ := run_special cfg hc st f p 50 48 50 56 0x2028
                   (senBody html ((utf8Decode (b :: r)).2 - 1) false r ++ rest) hm hf (by decide) (by decide) (by decide) (by decide) (by decide)
@@ -370,9 +387,9 @@ theorem body_run (html : Bool) : ∀ (s : Bytes) (skip : Nat) (copy : Bool) (st 
                 simp [this]
               · by_cases r2 : (utf8Decode (b :: r)).1 = 0x2029
                 · have e1 : senBody html 0 copy (b :: r) = esc2029 ++ senBody html ((utf8Decode (b :: r)).2 - 1) false r := by
-                    simp only [senBody]; simp [h4, r1, r2, c8, cO, c0, cX, cDot, cH]
+                    rw [senBody_c8 html copy b r h4, if_neg r1, if_pos r2]
                   have e2 : senDenote html 0 copy (b :: r) = [0xE2, 0x80, 0xA9] ++ senDenote html ((utf8Decode (b :: r)).2 - 1) false r := by
-                    simp only [senDenote, h4, r1, r2, ↓reduceIte]
+                    rw [senDenote_c8 html copy b r h4, if_neg r1, if_pos r2]
                   rw [e1, e2, List.append_assoc]
                   obtain ⟨ri1, rn1, p1, hu⟩ := run_special cfg hc st f p 50 48 50 57 0x2029
                     (senBody html ((utf8Decode (b :: r)).2 - 1) false r ++ rest) hm hf (by decide) (by decide) (by decide) (by decide) (by decide)
@@ -385,9 +402,9 @@ theorem body_run (html : Bool) : ∀ (s : Bytes) (skip : Nat) (copy : Bool) (st 
                   simp [this]
                 · by_cases r3 : (utf8Decode (b :: r)).1 = runeError
                   · have e1 : senBody html 0 copy (b :: r) = escFFFD ++ senBody html ((utf8Decode (b :: r)).2 - 1) false r := by
-                      simp only [senBody]; simp [h4, r1, r2, r3, c8, cO, c0, cX, cDot, cH]
+                      rw [senBody_c8 html copy b r h4, if_neg r1, if_neg r2, if_pos r3]
                     have e2 : senDenote html 0 copy (b :: r) = fffd ++ senDenote html ((utf8Decode (b :: r)).2 - 1) false r := by
-                      simp only [senDenote, h4, r1, r2, r3, ↓reduceIte]
+                      rw [senDenote_c8 html copy b r h4, if_neg r1, if_neg r2, if_pos r3]
                     rw [e1, e2, List.append_assoc]
                     obtain ⟨ri1, rn1, p1, hu⟩ := run_special cfg hc st f p 102 102 102 100 0xFFFD
                       (senBody html ((utf8Decode (b :: r)).2 - 1) false r ++ rest) hm hf (by decide) (by decide) (by decide) (by decide) (by decide)
@@ -399,9 +416,9 @@ theorem body_run (html : Bool) : ∀ (s : Bytes) (skip : Nat) (copy : Bool) (st 
                     have : Json.utf8Enc 0xFFFD = fffd := by decide
                     simp [this]
                   · have e1 : senBody html 0 copy (b :: r) = b :: senBody html ((utf8Decode (b :: r)).2 - 1) true r := by
-                      simp only [senBody]; simp [h4, r1, r2, r3, c8, cO, c0, cX, cDot, cH]
+                      rw [senBody_c8 html copy b r h4, if_neg r1, if_neg r2, if_neg r3]
                     have e2 : senDenote html 0 copy (b :: r) = b :: senDenote html ((utf8Decode (b :: r)).2 - 1) true r := by
-                      simp only [senDenote, h4, r1, r2, r3, ↓reduceIte]
+                      rw [senDenote_c8 html copy b r h4, if_neg r1, if_neg r2, if_neg r3]
                     rw [e1, e2, List.cons_append]
                     exact raw _ true hraw (fun _ => hk)
             · -- a two-character escape
@@ -433,5 +450,103 @@ theorem body_run (html : Bool) : ∀ (s : Bytes) (skip : Nat) (copy : Bool) (st 
               simp [hm]
 
 end body
+
+/-! ## the denotation is the sanitised string -/
+
+theorem sanLoop_ill (b : UInt8) (r : Bytes) (h : utf8Decode (b :: r) = (runeError, 1)) :
+    sanLoop 0 (b :: r) = fffd ++ sanLoop 0 r := by
+  simp [sanLoop, illFormedHead, h]
+
+theorem sanLoop_ok (b : UInt8) (r : Bytes) (n w : Nat) (h : utf8Decode (b :: r) = (n, w)) (hw : w ≠ 1) :
+    sanLoop 0 (b :: r) = b :: sanLoop (w - 1) r := by
+  simp [sanLoop, illFormedHead, h, hw]
+
+theorem denote_san (html : Bool) : ∀ (n : Nat) (s : Bytes), s.length ≤ n →
+    (∀ c, senDenote html 0 c s = sanLoop 0 s) ∧ (∀ k, senDenote html k true s = sanLoop k s) := by
+  intro n
+  induction n with
+  | zero =>
+    intro s hs
+    have : s = [] := List.eq_nil_of_length_eq_zero (by omega)
+    subst this
+    exact ⟨fun c => by simp [senDenote, sanLoop], fun k => by cases k <;> simp [senDenote, sanLoop]⟩
+  | succ n ih =>
+    intro s hs
+    cases s with
+    | nil => exact ⟨fun c => by simp [senDenote, sanLoop], fun k => by cases k <;> simp [senDenote, sanLoop]⟩
+    | cons b r =>
+      have hr : r.length ≤ n := by simp only [List.length_cons] at hs; omega
+      have zero : ∀ c, senDenote html 0 c (b :: r) = sanLoop 0 (b :: r) := by
+        intro c
+        by_cases h8 : senClass b = c8
+        · have hb8 : 128 ≤ b := (class8_iff b).mp h8
+          rw [senDenote_c8 html c b r h8]
+          rcases Writer.decode_cases b r hb8 with h | ⟨b1, r', m, rfl, _, hd, hm⟩ | ⟨b1, b2, r', m, rfl, _, _, hd, he⟩ |
+              ⟨b1, b2, b3, r', m, rfl, _, _, _, hd, hm⟩
+          · have e1 : (utf8Decode (b :: r)).1 = runeError := by rw [h]
+            have e2 : (utf8Decode (b :: r)).2 = 1 := by rw [h]
+            rw [sanLoop_ill b r h, if_neg (by rw [e1]; decide), if_neg (by rw [e1]; decide), if_pos e1, e2]
+            simp [(ih r hr).1]
+          · have e1 : (utf8Decode (b :: b1 :: r')).1 = m := by rw [hd]
+            have e2 : (utf8Decode (b :: b1 :: r')).2 = 2 := by rw [hd]
+            rw [sanLoop_ok b _ m 2 hd (by decide), if_neg (by rw [e1]; omega), if_neg (by rw [e1]; omega),
+              if_neg (by rw [e1]; unfold runeError; omega), e2]
+            simp [(ih _ hr).2]
+          · have e1 : (utf8Decode (b :: b1 :: b2 :: r')).1 = m := by rw [hd]
+            have e2 : (utf8Decode (b :: b1 :: b2 :: r')).2 = 3 := by rw [hd]
+            rw [sanLoop_ok b _ m 3 hd (by decide), e2]
+            have hr' : r'.length ≤ n := by simp only [List.length_cons] at hr; omega
+            have skip2 : ∀ x : Bytes, x ++ senDenote html (3 - 1) false (b1 :: b2 :: r') = x ++ sanLoop 0 r' := by
+              intro x; simp [senDenote, (ih r' hr').1]
+            have copy2 : sanLoop (3 - 1) (b1 :: b2 :: r') = b1 :: b2 :: sanLoop 0 r' := by simp [sanLoop]
+            rw [copy2]
+            rw [← utf8Enc_eq] at he
+            by_cases m1 : m = 0x2028
+            · rw [if_pos (by rw [e1]; exact m1), skip2]
+              subst m1
+              have : Json.utf8Enc 0x2028 = [0xE2, 0x80, 0xA8] := by decide
+              rw [this] at he
+              simp only [List.cons.injEq, and_true] at he
+              obtain ⟨rfl, rfl, rfl⟩ := he
+              rfl
+            · rw [if_neg (by rw [e1]; exact m1)]
+              by_cases m2 : m = 0x2029
+              · rw [if_pos (by rw [e1]; exact m2), skip2]
+                subst m2
+                have : Json.utf8Enc 0x2029 = [0xE2, 0x80, 0xA9] := by decide
+                rw [this] at he
+                simp only [List.cons.injEq, and_true] at he
+                obtain ⟨rfl, rfl, rfl⟩ := he
+                rfl
+              · rw [if_neg (by rw [e1]; exact m2)]
+                by_cases m3 : m = runeError
+                · rw [if_pos (by rw [e1]; exact m3), skip2]
+                  subst m3
+                  have : Json.utf8Enc runeError = [0xEF, 0xBF, 0xBD] := by decide
+                  rw [this] at he
+                  simp only [List.cons.injEq, and_true] at he
+                  obtain ⟨rfl, rfl, rfl⟩ := he
+                  rfl
+                · rw [if_neg (by rw [e1]; exact m3)]
+                  simp [senDenote, (ih r' hr').1]
+          · have e1 : (utf8Decode (b :: b1 :: b2 :: b3 :: r')).1 = m := by rw [hd]
+            have e2 : (utf8Decode (b :: b1 :: b2 :: b3 :: r')).2 = 4 := by rw [hd]
+            rw [sanLoop_ok b _ m 4 hd (by decide), if_neg (by rw [e1]; omega), if_neg (by rw [e1]; omega),
+              if_neg (by rw [e1]; unfold runeError; omega), e2]
+            simp [(ih _ hr).2]
+        · have hlt : b < 128 := by
+            have : ¬ 128 ≤ b := fun h => h8 ((class8_iff b).mpr h)
+            simpa [UInt8.not_le] using this
+          rw [Writer.san_ascii b r hlt]
+          simp only [senDenote, h8, ↓reduceIte]
+          rw [(ih r hr).1]
+      refine ⟨zero, fun k => ?_⟩
+      cases k with
+      | zero => exact zero true
+      | succ k => simp [senDenote, sanLoop, (ih r hr).2 k]
+
+/-- **what the parser reads back from the quoted body is the sanitised string** -/
+theorem senDenote_eq_sanitize (html : Bool) (s : Bytes) : senDenote html 0 true s = sanitize s :=
+  (denote_san html s.length s (Nat.le_refl _)).1 true
 
 end OjgVerif.Sen
